@@ -194,7 +194,7 @@ def stepRecv (toks : List String) : String :=
       let procs := (procSeq delta auth [] tys).map fun (t, c) =>
         s!"{t.tok}:{c.1}:{boolTok c.2.1}:{boolTok c.2.2}"
       let pr := if procs.isEmpty then "-" else ";".intercalate procs
-      s!"fwd={fwd} err={o.err.tok} init={boolTok o.init} proc={pr}"
+      s!"fwd={fwd} err={o.err.tok} init={boolTok o.init} released={boolTok o.released} proc={pr}"
   | _ => "bad-op"
 
 /-! ### stream dloop -/
